@@ -159,6 +159,27 @@ def po_mint(S):
     S.check("vault-amounts-non-negative", m.vault[vk].collateral_amount >= 0 and m.vault[vk].osqth_short_amount >= 0)
 
 
+@proof("C14", "deposit/moves-exactly-the-stated-ETH;covered-deposits-are-accepted", strength="S", shapes=SHAPES, contracts=SQ_CONTRACTS, covers=("accepted", "rejected"))
+def po_deposit(S):
+    w = world(S)
+    m = w.market
+    vk = w.keys[0]
+    a = S.dec("eth", None, None)
+    c0, s0 = m.vault[vk].collateral_amount, m.vault[vk].osqth_short_amount
+    we0 = w.broker._assets[w.weth].balance
+    try:
+        m.deposit(vk, a)
+    except REJECT:
+        S.cover("rejected")
+        S.check("a-deposit-the-wallet-covers-with-margin-is-not-rejected", not (a >= 0 and a * Decimal("1.0001") <= we0))
+        return
+    S.cover("accepted")
+    S.check("accepted-deposit-is-not-negative", a >= 0)
+    S.check("collateral+=deposit", S.eq(m.vault[vk].collateral_amount, c0 + a))
+    S.check("wallet-WETH-=deposit(or-snaps-to-zero-within-the-1e-5-dust)", S.eq(w.broker._assets[w.weth].balance, we0 - a) or w.broker._assets[w.weth].balance == 0)
+    S.check("debt-untouched", m.vault[vk].osqth_short_amount == s0)
+
+
 @proof("C14", "burn_and_withdraw/accepted=>vault-safe;moves-stated-amounts", strength="S", shapes=SHAPES, contracts=SQ_CONTRACTS, covers=("accepted", "rejected"))
 def po_burn_withdraw(S):
     w = world(S)
@@ -248,8 +269,13 @@ def po_update(S):
     try:
         m.update()
     except REJECT:
-        # "Dust vault left" / "Need full liquidation": the ported controller reverts; recorded, not silently accepted
+        # the ported controller reverts a liquidation that would leave a dust vault ("Dust vault left"); that is the ONLY admissible revert:
+        # a safe vault is never touched, and with the whole debt offered (update passes the vault's debt) "Need full liquidation" cannot occur
         S.cover("reverted")
+        S.check("update-reverts-only-for-an-unsafe-vault", not ok_before)
+        if not had_lp and not ok_before:
+            e_amt, e_pay = m._get_liquidation_result(s0, s0, c0)
+            S.check("a-revert-is-only-the-dust-vault-case(debt-left-with-under-0.5-ETH)", s0 - e_amt != 0 and c0 - e_pay < Decimal("0.5"))
         return
     if ok_before:
         S.cover("safe")
